@@ -74,10 +74,24 @@ def projects(tier):
         "nf.py": "class Inner:\n    def __init__(self):\n        self.base = 1\n\nclass Outer:\n    def __init__(self):\n        self.inner = Inner()\n        self.tag = 0\n\n"
                  "def fill(o, v):\n    o.inner.alpha = v\n    o.inner.beta = v\n    o.inner.gamma = v\n    o.inner.delta = v\n    o.inner.epsilon = v\n    o.tag = v\n\n"
                  "def main():\n    o = Outer()\n    o.inner.base = 2\n    o.inner.zeta = 3\n    fill(o, 5)\n    p = Outer()\n    fill(p, 6)\n    return o.inner.alpha\n\nmain()\n"}))
+    # two command-line inputs with the same base name that both hold a file at the same relative path (the later copy wins: the order of the
+    # inputs must be the order of the command line, whatever the hash seed)
+    out.append(("two_inputs_same_basename", "python", {
+        "svc_a/app/main.py": "def handle(x):\n    y = x + 1\n    return y\n\nr = handle(1)\n",
+        "svc_a/app/only_a.py": "def a_only(v):\n    return v\n",
+        "svc_b/app/main.py": "def handle(x, z=2):\n    w = x * z\n    q = w - 1\n    return q\n\ndef extra():\n    return handle(3)\n\nr = extra()\n",
+        "svc_b/app/only_b.py": "def b_only(v):\n    t = v\n    return t\n"}))
+    # user code with % between an identifier character and a letter (the textual rewrite reserved for mock sources must not touch it)
+    out.append(("percent_operators", "python", {
+        "mod.py": 'def slot(key, size):\n    idx = key%size\n    name = "slot%d" % idx\n    pad = 7%size\n    return name\n\nr = slot(10, 4)\n'}))
     if tier == "quick":
-        keep = {"ambiguous_imports", "inheritance_override", "nested_fields", "py_dataflows", "py_import", "js_dataflows", "java_lang", "mixed_py_js", "generated_py", "php_lang"}
+        keep = {"two_inputs_same_basename", "percent_operators", "ambiguous_imports", "inheritance_override", "nested_fields", "py_dataflows", "py_import", "js_dataflows", "java_lang", "mixed_py_js", "generated_py", "php_lang"}
         out = [p for p in out if p[0] in keep]
     return out
+
+
+# projects analysed with several command-line inputs (relative to the job's input directory)
+INPUTS = {"two_inputs_same_basename": ["svc_a/app", "svc_b/app"]}
 
 
 def schedules(tier):
@@ -85,7 +99,9 @@ def schedules(tier):
     sch = [("base", 0, "locA", False, []), ("seed1", 1, "locA", False, []), ("seed2", 2, "locA", False, []),
            ("locB", 0, "elsewhere/deeper/locB", False, []), ("after_other", 3, "locA", True, []), ("repeat", 0, "locA", False, []),
            # the same workspace directory was used before by a project in another language (mocks enabled, --force)
-           ("same_ws_after_js", 0, "locA", "same_ws", [])]
+           ("same_ws_after_js", 0, "locA", "same_ws", []),
+           # a workspace below a directory that is called like lian's own sub-directory for mocked sources
+           ("loc_externs", 0, "elsewhere/externs/locC", False, [])]
     if tier == "thorough":
         sch += [("seed3", 3, "locA", False, []), ("seed4", 4, "locA", False, []), ("repeat2", 4, "elsewhere/deeper/locB", True, []),
                 ("p2_base", 0, "locA", False, ["--enable-p2"]), ("p2_seed1", 1, "locA", False, ["--enable-p2"]),
@@ -106,6 +122,8 @@ def run(tier, seed):
             d = os.path.join(root, name, tag, loc)
             job = dict(cmd="run", lang=lang, files=files, dir=d, hashseed=hs, flags=flags, export=[], keep_ws=True, timeout=900,
                        post_hook="c14_digest")
+            if name in INPUTS:
+                job["in_paths"] = [os.path.join(d, "in", x) for x in INPUTS[name]]
             if before == "same_ws":
                 jobs.append(dict(cmd="run", lang="javascript", files={"o.js": "function zz(a) {\n    return a + 1;\n}\nvar r = zz(2);\n"}, dir=d, hashseed=hs,
                                  export=[], keep_ws=True, timeout=600))
